@@ -43,7 +43,7 @@ func main() {
 			Opts:   hx.TreeOpts{Unsync: true, Phantom: false, MaxDepth: c.Size(4, 6), MaxKids: 3},
 		}
 		corex.RunReconcileCases(c,
-			func(emit func(string, *core.Entry, *core.Entry, *core.Entry)) {
+			func(emit func(string, *core.Entry, *core.Entry, *core.Entry), raw func(string)) {
 				corex.Triples(c, cfg, emit)
 				cfg2 := cfg
 				cfg2.Stride, cfg2.Random = 1<<30, c.Size(300, 30000)
